@@ -6,7 +6,7 @@
                    the slots and the appended bytes (whatever else changes before them or is
                    appended later) *)
 From CV Require Import Value.ValueEq Value.EqualM Value.Den Value.DenFacts Value.DenLists Value.CanonSpec Value.CanonM
-                       Value.CanonMData Value.CanonMHeap Value.CanonMLoop Value.CanonMInd Value.CanonMListR Value.CanonMListC.
+                       Value.CanonMData Value.CanonMHeap Value.CanonMLoop Value.CanonMInd Value.CanonMBytes Value.CanonMBlocks.
 From CV Require Import Core.ReaderFacts Core.SafetyProofs Core.BuilderFacts Core.ArithFacts Core.CopySafe Core.WritePtrProofs.
 From CV Require Core.HeapInv.
 From Coq Require Import ZifyBool ZifyNat.
